@@ -92,6 +92,68 @@ pub fn oracle_corrupt(payload: &[u8], why: &str) -> Result<(), (String, String)>
     }
 }
 
+/// 1029 text of exactly n UTF-8 bytes and at most 127 characters: encodes, wire counts agree, decodes to the same text
+fn text_case(rng: &mut crate::rng::Rng, n: usize, rep: u64) -> Result<Vec<u8>, (String, String, J)> {
+    use rtcm_rs::msg::Msg1029T;
+    use rtcm_rs::util::ArrayString;
+    // k three-byte characters + ASCII so that bytes == n and characters <= 127
+    let kmin = if n > 127 { (n - 127 + 1) / 2 } else { 0 };
+    let kmax = n / 3;
+    let k = if kmax >= kmin { kmin + (rng.below((kmax - kmin + 1) as u64) as usize) * ((rep % 2) as usize) } else { kmin };
+    let k = k.min(kmax);
+    let mut chars: Vec<char> = Vec::new();
+    for _ in 0..k {
+        chars.push(char::from_u32(0x4e00 + rng.below(0x1000) as u32).unwrap());
+    }
+    let mut rest = n - 3 * k;
+    // a few two-byte characters
+    while rest >= 2 && rng.below(4) == 0 && chars.len() + rest - 1 <= 127 {
+        chars.push(char::from_u32(0xA1 + rng.below(0x5E) as u32).unwrap());
+        rest -= 2;
+    }
+    for _ in 0..rest {
+        chars.push(char::from_u32(0x21 + rng.below(0x5E) as u32).unwrap());
+    }
+    rng.shuffle(&mut chars);
+    let s: String = chars.iter().collect();
+    let case = json!({"kind":"text1029","chars":s.chars().map(|c| c as u32).collect::<Vec<u32>>()});
+    if s.len() != n || s.chars().count() > 127 {
+        return Ok(Vec::new()); // construction did not hit the target (only when n is not reachable); not a case
+    }
+    let text = ArrayString::<255>::from(s.as_str());
+    if &*text != s.as_str() {
+        return Err(("c15:1029:text-not-kept".into(), format!("1029: a text of {} bytes / {} characters (within the capacity) is stored as {} bytes", n, s.chars().count(), (&*text).len()), case));
+    }
+    let m = Message::Msg1029(Msg1029T { reference_station_id: 1, modified_julian_day_number: 2, seconds_of_day_s: 3, text_str: text });
+    let f = msggen::build(&m).map_err(|e| ("c15:1029:refused".to_string(), format!("1029: text of {} bytes / {} characters refused: {}", n, s.chars().count(), e), case.clone()))?;
+    let p = &f[3..f.len() - 3];
+    let cw = get_bits(p, 57, 7).unwrap_or(999) as usize;
+    let bw = get_bits(p, 64, 8).unwrap_or(999) as usize;
+    if cw != s.chars().count() || bw != n {
+        return Err(("c15:1029:count-field".into(), format!("1029: text of {} bytes / {} characters: wire counts {} / {}", n, s.chars().count(), bw, cw), case));
+    }
+    match decode_frame(&f) {
+        Some(back) if back == m => Ok(f),
+        Some(back) => Err(("c15:1029:roundtrip".into(), format!("1029: text of {} bytes decodes to {} (not equal to the input)", n, crate::registry::variant_name(&back)), case)),
+        None => Err(("c15:harness".into(), "own frame rejected".into(), case)),
+    }
+}
+
+fn replay_text(s: &str) -> Result<(), (String, String)> {
+    use rtcm_rs::msg::Msg1029T;
+    use rtcm_rs::util::ArrayString;
+    let text = ArrayString::<255>::from(s);
+    if &*text != s {
+        return Err(("c15:1029:text-not-kept".into(), "text within the capacity not kept".into()));
+    }
+    let m = Message::Msg1029(Msg1029T { reference_station_id: 1, modified_julian_day_number: 2, seconds_of_day_s: 3, text_str: text });
+    let f = msggen::build(&m).map_err(|e| ("c15:1029:refused".to_string(), e))?;
+    match decode_frame(&f) {
+        Some(back) if back == m => Ok(()),
+        _ => Err(("c15:1029:roundtrip".into(), "1029 text does not round trip".into())),
+    }
+}
+
 fn lat1_string(rng: &mut crate::rng::Rng, n: usize) -> String {
     (0..n).map(|_| if rng.below(4) == 0 { char::from_u32(0xA1 + rng.below(0x5E) as u32).unwrap() } else { char::from_u32(0x21 + rng.below(0x5E) as u32).unwrap() }).collect()
 }
@@ -99,7 +161,7 @@ fn lat1_string(rng: &mut crate::rng::Rng, n: usize) -> String {
 pub fn run(ctx: &Ctx, replay: Option<&J>) -> CheckResult {
     let rule = "every list-bearing type of the pinned layout table (legacy observables 1001-1004/1009-1012, 1013, network RTK 1015-1017/1037-1039/1030/1031/1034/1035/1303/1304, SSR \
         1057/1058/1060-1064/1066-1068) x every n=0..=capacity with elements drawn from decoded zero/ones/random vectors in varying order; descriptor strings of 1007/1008/1033/1021/1022/\
-        1300-1302 for every length 0..=31 and the 1302 link list 0..=7. oracle: build Ok, payload<=1023 bytes, count read from the wire at the pinned offset/width == n, decode == input \
+        1300-1302 for every length 0..=31, the 1302 link list 0..=7, and the 1029 text for every byte length 0..=255 (1/2/3-byte characters, <=127 characters). oracle: build Ok, payload<=1023 bytes, count read from the wire at the pinned offset/width == n, decode == input \
         (same number of elements, same order). Every count value above the capacity that the field can express (1057/1063: 61-63, 1060/1066: 40-63, 8-bit string counts 32-255) with a long \
         body => Corrupt; every byte truncation of full-length and mid-length frames (re-framed, valid CRC) => Corrupt (Empty below 2 bytes). non-trivial = all (n in {0,1,cap-1,cap} and \
         damaged frames are classed); distinct = (type, n, repetition) / hash of damaged payload"
@@ -113,7 +175,10 @@ pub fn run(ctx: &Ctx, replay: Option<&J>) -> CheckResult {
         let mut ev = Evidence::new();
         ev.eval();
         let mut vs = Vec::new();
-        let r = if c["kind"] == "damaged-payload" {
+        let r = if c["kind"] == "text1029" {
+            let st: String = c["chars"].as_array().map(|a| a.iter().filter_map(|x| x.as_u64()).filter_map(|x| char::from_u32(x as u32)).collect()).unwrap_or_default();
+            replay_text(&st)
+        } else if c["kind"] == "damaged-payload" {
             oracle_corrupt(&unhex(c["payload"].as_str().unwrap_or("")).unwrap_or_default(), c["why"].as_str().unwrap_or("damage"))
         } else {
             match c.get("value").and_then(Value::from_json) {
@@ -300,6 +365,50 @@ pub fn run(ctx: &Ctx, replay: Option<&J>) -> CheckResult {
     for (e, v) in parts {
         ev.merge(e);
         vs.extend(v);
+    }
+    // 1029: the count-prefixed UTF-8 text (character count 7 bits @57, byte count 8 bits @64, capacity 255 bytes / 127 characters)
+    {
+        let mut rng = ctx.rng("c15-1029", 0);
+        let mut full: Vec<Vec<u8>> = Vec::new();
+        for rep in 0..reps.min(40) {
+            for n in 0..=255usize {
+                match text_case(&mut rng, n, rep) {
+                    Ok(f) => {
+                        ev.evaluations += 1;
+                        ev.distinct_by_construction += 1;
+                        ev.class(if n == 0 { "text1029/n=0" } else if n == 255 { "text1029/n=cap" } else { "text1029/n=mid" });
+                        if n == 255 || n == 128 {
+                            full.push(f);
+                        }
+                    }
+                    Err((sig, msg, case)) => {
+                        ev.evaluations += 1;
+                        if ctx.is_known(&sig) {
+                            ev.excluded_known += 1;
+                        } else if !vs.iter().any(|v: &Violation| v.signature == sig) {
+                            vs.push(Violation { property: "C15".into(), signature: sig, message: msg, case });
+                        }
+                    }
+                }
+            }
+        }
+        for f in full.iter().take(2) {
+            let p = &f[3..f.len() - 3];
+            for k in 0..p.len() {
+                ev.evaluations += 1;
+                match oracle_corrupt(&p[..k], "truncated-body") {
+                    Ok(()) => {
+                        ev.nontrivial_bytes(&p[..k]);
+                        ev.class("damaged/truncated");
+                    }
+                    Err((sig, msg)) => {
+                        if !vs.iter().any(|v| v.signature == sig) {
+                            vs.push(Violation { property: "C15".into(), signature: sig, message: msg, case: json!({"kind":"damaged-payload","why":"truncated-body","payload":hex(&p[..k])}) });
+                        }
+                    }
+                }
+            }
+        }
     }
     ev.extra.insert("list_types".into(), json!(LIST_MSGS.len()));
     ev.extra.insert("string_types".into(), json!(STRING_MSGS.len()));
